@@ -71,8 +71,10 @@ func (r *zzListReader) NewIterator(prefix []byte, reverse bool, seek bool) (lib.
 
 var zzTxnPrefix = []byte("s/")
 
-// universe: three keys under the iterated prefix "p" and one outside it, ascending
-var zzUniverse = [][]byte{[]byte("pa"), []byte("pb"), []byte("pc"), []byte("qa")}
+// universe: three keys under the iterated prefix "p" - the first one IS the prefix, byte for byte
+// (seek positions are computed from the prefix, an exact match must not be mistaken for the end of
+// the range) - and one outside it, ascending
+var zzUniverse = [][]byte{[]byte("p"), []byte("pa"), []byte("pb"), []byte("qa")}
 
 type zzCell struct {
 	present bool
@@ -166,7 +168,7 @@ func zzCheckReads(tag string, t *Txn, model []zzCell, n int) {
 func ZZ_C10_V3_txn_overlay_reads() {
 	n := zzParam("keys", 3)
 	if n == 3 {
-		zzUniverse = [][]byte{[]byte("pa"), []byte("pb"), []byte("qa")}
+		zzUniverse = [][]byte{[]byte("p"), []byte("pb"), []byte("qa")}
 	}
 	parent, model := zzParentWorld(n)
 	t := NewTxn(parent, nil, zzTxnPrefix, false, true, true)
@@ -179,7 +181,7 @@ func ZZ_C10_V3_txn_overlay_reads() {
 //zz:reach V4.done
 func ZZ_C10_V4_nested_txn() {
 	n := zzParam("keys", 2)
-	zzUniverse = [][]byte{[]byte("pa"), []byte("pb"), []byte("qa")}
+	zzUniverse = [][]byte{[]byte("p"), []byte("pb"), []byte("qa")}
 	parent, model := zzParentWorld(n)
 	outer := NewTxn(parent, nil, zzTxnPrefix, false, true, true)
 	zzPending("outer", outer, model, n)
@@ -207,7 +209,7 @@ func ZZ_C10_V4_nested_txn() {
 //zz:reach V5.done
 func ZZ_C10_V5_txn_copies_are_independent() {
 	n := zzParam("keys", 2)
-	zzUniverse = [][]byte{[]byte("pa"), []byte("pb"), []byte("qa")}
+	zzUniverse = [][]byte{[]byte("p"), []byte("pb"), []byte("qa")}
 	parent, model := zzParentWorld(n)
 	orig := NewTxn(parent, nil, zzTxnPrefix, false, true, true)
 	zzPending("orig", orig, model, n)
